@@ -991,12 +991,14 @@ impl QuicSocket {
 
     pub fn graceful_shutdown(&self) -> io::Result<()> {
         {
-            let mut quic_conn = self.quic_conn.lock().unwrap();
+            // Lock order of this type: `h3_conn` before `quic_conn` (as in `send_response`,
+            // `read`, `write` and `poll_h3_connection`, which run on other tasks).
+            let mut h3_conn = self.h3_conn.lock().unwrap();
             #[cfg(trusttunnel_verif)]
             crate::verif::shutdown::sync::gate_probe("quic_socket:graceful_shutdown:between_locks", &|| {
                 (self.h3_conn.try_lock().is_err(), self.quic_conn.try_lock().is_err())
             });
-            let mut h3_conn = self.h3_conn.lock().unwrap();
+            let mut quic_conn = self.quic_conn.lock().unwrap();
             for stream_id in quic_conn.writable() {
                 let _ = h3_conn.send_body(&mut quic_conn, stream_id, &[], true);
             }
